@@ -15,6 +15,7 @@ from mc.report import Recorder
 
 PID = "C19"
 LEVEL = "exploration"
+REDUCED = {'quick': 'second bump / TF-MoDISco bumps at every second position'}
 RULE = ("cases = (caller, background table, bump set (width, sign, amplitude, start), parameters) enumerated completely over the "
         "grid; non-trivial = the call returned at least one seqlet (every returned row is checked); also counted: rows with "
         "start == 0 and rows with end == L")
